@@ -23,6 +23,7 @@ type c05Scn struct {
 	Action  string   `json:"action"`
 	Prefix  []int    `json:"choices"`
 	Devs    []string `json:"deviations,omitempty"`
+	Tickers int      `json:"tickers_n,omitempty"` // replay of the real-ticker part for this cluster size
 }
 
 const (
@@ -379,6 +380,12 @@ func TestC05(t *testing.T) {
 		return
 	}
 	var rp c05Scn
+	if loadReplay(&rp) && rp.Tickers > 0 {
+		c05Tickers(t, rep, rp.Tickers)
+		rep.States, rep.Transitions = 1, 1
+		rep.Samples = append(rep.Samples, rp)
+		return
+	}
 	if loadReplay(&rp) {
 		x := runC05(t, rp)
 		t.Logf("replay: %q %s", x.Verdict, x.Msg)
